@@ -221,13 +221,13 @@ package lint
 //@   pure
 //@   ensures cfgOK(result)
 //@ interface Registry.CertificateLints
-//@   pure
+//@   pure heapfree
 //@   ensures result != nil
 //@ interface Registry.RevocationListLints
-//@   pure
+//@   pure heapfree
 //@   ensures result != nil
 //@ interface Registry.OcspResponseLints
-//@   pure
+//@   pure heapfree
 //@   ensures result != nil
 //@ interface CertificateLinterLookup.Lints
 //@   pure
@@ -240,7 +240,7 @@ package lint
 //@   ensures wfOcspLints(result)
 
 //@ func GlobalRegistry
-//@   pure
+//@   pure heapfree
 //@   trusted
 //@   ensures result != nil
 
@@ -266,14 +266,23 @@ package lint
 //@   ensures implies(!isJSONString(data) || !knownSource(LintSource(jsonString(data))), result != nil)
 //@   ensures implies(result == nil, knownSource(*s))
 
-//@ func (*SourceList).FromString [C13]
+//@ func (*SourceList).FromString [C13 C15]
 //@   requires l != nil
 //@   nopanic
 //@   assigns \fresh, *l
 //@   loop 1 invariant forall(j, 0, k, trim(values[j]) == "" || knownSource(LintSource(trim(values[j]))))
 //@   loop 1 invariant len(values) == splitLen(raw, ",") && forall(j, 0, len(values), values[j] == splitAt(raw, ",", j))
+//@   loop 1 invariant [C15] forall(i, 0, len(*l), exists(j, 0, k, trim(values[j]) != "" && LintSource(trim(values[j])) == (*l)[i]))
+//@   loop 1 invariant [C15] forall(j, 0, k, trim(values[j]) == "" || exists(i, 0, len(*l), (*l)[i] == LintSource(trim(values[j]))))
+//@   loop 1 invariant [C15] k <= len(values)
+//@   loop 1 invariant [C15] fresh(*l)
 //@   ensures (result == nil) == forall(j, 0, splitLen(raw, ","),
 //@                trim(splitAt(raw, ",", j)) == "" || knownSource(LintSource(trim(splitAt(raw, ",", j)))))
+//@   ensures [C15] implies(result == nil, forall(i, 0, len(*l), exists(j, 0, splitLen(raw, ","), trim(splitAt(raw, ",", j)) != "" &&
+//@                LintSource(trim(splitAt(raw, ",", j))) == (*l)[i]), (*l)[i]))
+//@   ensures [C15] fresh(*l)
+//@   ensures [C15] implies(result == nil, forall(j, 0, splitLen(raw, ","), trim(splitAt(raw, ",", j)) == "" ||
+//@                exists(i, 0, len(*l), (*l)[i] == LintSource(trim(splitAt(raw, ",", j)))), splitAt(raw, ",", j)))
 
 // ---------------------------------------------------------------------------
 // status labels (C14): written from the property - eight defined values, each with
@@ -554,10 +563,10 @@ package lint
 //@   requires cfgOK(c)
 //@   nopanic
 //@   assigns \fresh, \after(target)
-//@   ensures g.nTomlGet == 1 && g.argTomlGet == namespace && g.recvTomlGet == c.tree
-//@   ensures implies(g.retTomlGet == nil, g.nTomlUnm == 0)
-//@   ensures implies(g.retTomlGet != nil && !typeIs(g.retTomlGet, *toml.Tree), result != nil && g.nTomlUnm == 0)
-//@   ensures implies(g.nTomlUnm == 1, g.argTomlUnm == target && implies(g.retTomlUnm != nil, result != nil))
+//@   atcall (lint.Configuration).resolveHigherScopedReferences 1 g.nTomlGet == 1 && g.argTomlGet == namespace && g.recvTomlGet == c.tree &&
+//@                   implies(g.retTomlGet == nil, g.nTomlUnm == 0) && implies(g.nTomlUnm == 1, g.argTomlUnm == target)
+//@   ensures g.nTomlGet >= 1
+//@   ensures implies(g.nTomlGet == 1 && g.retTomlGet != nil && !typeIs(g.retTomlGet, *toml.Tree), result != nil && g.nTomlUnm == 0)
 
 //@ func (Configuration).Configure [C11 C02]
 //@   requires cfgOK(c)
@@ -826,3 +835,16 @@ package lint
 //@ trace func (*CertificateLint).Execute as Run
 //@ trace func (*RevocationListLint).Execute as CrlRun
 //@ trace func (*OcspResponseLint).Execute as OcspRun
+
+// ---------------------------------------------------------------------------
+// what the command-line tool relies on (C15)
+//@ trace interface Registry.Filter as Flt
+//@ interface Registry.Filter
+//@   maypanic
+//@   assigns \fresh
+//@ interface Registry.SetConfiguration
+//@   assigns \after(this)
+//@ func NewConfigFromFile [C15]
+//@   trusted
+//@   assigns \fresh
+//@   ensures implies(result1 == nil, cfgOK(result0))
